@@ -159,6 +159,32 @@ def setValueImplicit : CtorArg → R (Nat × Nat)
   | .pyNone => .error .type_
   | .bytes => .error .type_
 
+/-- the version / value part of `EUI(addr, version, dialect)` for an argument that is not an EUI
+    object (eui/__init__.py:373-389): the version test, the default version of an integer, then
+    `self.value = addr` -/
+def ctorValue (a : CtorArg) (version : Option Int) : R (Nat × Nat) :=
+  match version with
+  | some k =>
+    if k = 48 then setValueExplicit 48 a
+    else if k = 64 then setValueExplicit 64 a
+    else .error .value           -- 'unsupported EUI version %r': ValueError either way
+  | none =>
+    match a with
+    | .addr (.int n) =>
+      if 0 ≤ n ∧ n ≤ 0xffffffffffff then setValueExplicit 48 a
+      else if 0xffffffffffff < n ∧ n ≤ 0xffffffffffffffff then setValueExplicit 64 a
+      else setValueImplicit a
+    | _ => setValueImplicit a
+
+/-- `self.dialect = dialect` after the value has been set (eui/__init__.py:392): an exception of
+    the value part comes first -/
+def attachDialect (dia : DialectArg) : R (Nat × Nat) → R (Nat × Nat × Dialect)
+  | .error e => .error e
+  | .ok (ver, v) =>
+    match validateDialect ver dia with
+    | .error e => .error e
+    | .ok d => .ok (ver, v, d)
+
 /-- `EUI(addr, version, dialect)` → (version, value, dialect) (eui/__init__.py:344-392).
     Copy construction takes version, value AND dialect from the argument (the `dialect` argument
     is not looked at) and refuses a different explicit version with ValueError.  Otherwise: the
@@ -169,26 +195,7 @@ def ctor (a : CtorArg) (version : Option Int) (dia : DialectArg) : R (Nat × Nat
     match version with
     | some k => if k ≠ (ver : Int) then .error .value else .ok (ver, v, d)
     | none => .ok (ver, v, d)
-  | _ =>
-    let vv : R (Nat × Nat) :=
-      match version with
-      | some k =>
-        if k = 48 then setValueExplicit 48 a
-        else if k = 64 then setValueExplicit 64 a
-        else .error .value           -- 'unsupported EUI version %r': ValueError either way
-      | none =>
-        match a with
-        | .addr (.int n) =>
-          if 0 ≤ n ∧ n ≤ 0xffffffffffff then setValueExplicit 48 a
-          else if 0xffffffffffff < n ∧ n ≤ 0xffffffffffffffff then setValueExplicit 64 a
-          else setValueImplicit a
-        | _ => setValueImplicit a
-    match vv with
-    | .error e => .error e
-    | .ok (ver, v) =>
-      match validateDialect ver dia with
-      | .error e => .error e
-      | .ok d => .ok (ver, v, d)
+  | _ => attachDialect dia (ctorValue a version)
 
 /-! ## setters of a live object -/
 
